@@ -84,7 +84,23 @@ func (pc *provCtx) origins(v ssa.Value, at ssa.Instruction, depth int, seen map[
 		return []origin{{Kind: "const", Detail: x.String(), Pos: x.Pos()}}
 	case *ssa.Parameter:
 		if x.Parent().Parent() != nil { // anonymous function: a callback parameter
+			// a closure that is only ever called directly by its parent (`setAll := func(rcpts []string, …)`) is bound like a helper
+			if args := pc.paramBindings(x); args != nil {
+				var out []origin
+				for _, a := range args {
+					out = append(out, pc.origins(a.v, a.at, depth+2, seen)...)
+				}
+				return dedupOrigins(out)
+			}
 			return []origin{{Kind: "cbparam", Param: x, Detail: x.Parent().Parent().String(), Pos: x.Pos()}}
+		}
+		// parameter of an unexported helper: what its callers pass (extracted code keeps its provenance)
+		if args := pc.paramBindings(x); args != nil {
+			var out []origin
+			for _, a := range args {
+				out = append(out, pc.origins(a.v, a.at, depth+2, seen)...)
+			}
+			return dedupOrigins(out)
 		}
 		return []origin{{Kind: "param", Param: x, Pos: x.Pos()}}
 	case *ssa.Phi:
@@ -418,6 +434,13 @@ func (pc *provCtx) elemsOf(v ssa.Value, at ssa.Instruction, depth int, seen map[
 		}
 		return []origin{{Kind: "call", Detail: ssaCalleeName(&x.Call), Call: x, Pos: x.Pos()}}
 	case *ssa.Parameter:
+		if args := pc.paramBindings(x); args != nil {
+			var out []origin
+			for _, a := range args {
+				out = append(out, pc.elemsOf(a.v, a.at, depth+2, seen)...)
+			}
+			return dedupOrigins(out)
+		}
 		return []origin{{Kind: "param", Param: x, Detail: "elements", Pos: x.Pos()}}
 	case *ssa.MakeSlice, *ssa.MakeMap:
 		return nil
@@ -439,4 +462,122 @@ func (pc *provCtx) keysOf(v ssa.Value, at ssa.Instruction, depth int, seen map[s
 		return []origin{{Kind: "mapkey", Field: fv, Detail: "key of field " + fv.Name(), Pos: v.Pos()}}
 	}
 	return []origin{{Kind: "other", Detail: "map key of " + v.String(), Pos: v.Pos()}}
+}
+
+
+type boundArg struct {
+	v  ssa.Value
+	at ssa.Instruction
+}
+
+// paramBindings: for a parameter of an unexported maddy function (or of a closure) that is only called statically –
+// never stored, passed or started as a goroutine with unknown arguments – the arguments at all its call sites.
+// nil if the function can be called from places the analysis does not see (exported, method of an interface, used
+// as a value).
+func (pc *provCtx) paramBindings(prm *ssa.Parameter) []boundArg {
+	fn := prm.Parent()
+	if fn == nil || !isMaddyFn(fn) {
+		return nil
+	}
+	idx := -1
+	for i, q := range fn.Params {
+		if q == prm {
+			idx = i
+		}
+	}
+	if idx < 0 {
+		return nil
+	}
+	isClosure := fn.Parent() != nil
+	if !isClosure {
+		obj, _ := fn.Object().(*types.Func)
+		if obj == nil || obj.Exported() {
+			return nil
+		}
+		// a method that may implement an interface is reachable dynamically: only bind receivers' helpers whose name
+		// is not part of any interface in the module – approximated by "unexported"
+	}
+	var out []boundArg
+	var scan []*ssa.Function
+	if isClosure {
+		scan = []*ssa.Function{fn.Parent()}
+		scan = append(scan, fn.Parent().AnonFuncs...)
+	} else {
+		for _, f := range pc.p.MaddyFuncs() {
+			if f.Pkg == fn.Pkg {
+				scan = append(scan, f)
+			}
+		}
+	}
+	escapes := false
+	for _, f := range scan {
+		for _, b := range f.Blocks {
+			for _, ins := range b.Instrs {
+				// direct calls
+				if ci, ok := ins.(ssa.CallInstruction); ok {
+					cc := ci.Common()
+					target := cc.StaticCallee()
+					if target == nil && isClosure {
+						// call through the local variable holding the closure: the value is the MakeClosure / function itself
+						if mc, ok := cc.Value.(*ssa.MakeClosure); ok && mc.Fn == fn {
+							target = fn
+						}
+					}
+					if target == fn {
+						if _, isGo := ins.(*ssa.Go); isGo {
+							// started as a goroutine: the arguments are still the ones written at the go statement
+						}
+						if idx < len(cc.Args) {
+							out = append(out, boundArg{cc.Args[idx], ins})
+						}
+						continue
+					}
+					// passed as an argument
+					for _, a := range cc.Args {
+						if usesFn(a, fn) {
+							escapes = true
+						}
+					}
+				}
+				if st, ok := ins.(*ssa.Store); ok && usesFn(st.Val, fn) {
+					// stored into a local cell and called from there is common for closures: resolve the loads
+					if isClosure {
+						if al, ok := st.Addr.(*ssa.Alloc); ok {
+							for _, ref := range *al.Referrers() {
+								if ld, ok := ref.(*ssa.UnOp); ok && ld.Op == token.MUL {
+									for _, r2 := range *ld.Referrers() {
+										if ci, ok := r2.(ssa.CallInstruction); ok && ci.Common().Value == ld {
+											if idx < len(ci.Common().Args) {
+												out = append(out, boundArg{ci.Common().Args[idx], r2})
+											}
+										} else {
+											escapes = true
+										}
+									}
+								} else if ref != ins {
+									escapes = true
+								}
+							}
+							continue
+						}
+					}
+					escapes = true
+				}
+			}
+		}
+	}
+	if escapes || len(out) == 0 {
+		return nil
+	}
+	return out
+}
+
+func usesFn(v ssa.Value, fn *ssa.Function) bool {
+	switch x := v.(type) {
+	case *ssa.Function:
+		return x == fn
+	case *ssa.MakeClosure:
+		return x.Fn == fn
+	}
+	return false
 }
